@@ -3,8 +3,8 @@ CONSTANTS
   Img = {1}
   GKeys = {1}
   MaxHeld = 1
-  Bugs = {}
-  Depth = 6
+  Bugs = {"guard_transform_prefix"}
+  Depth = 4
   Types = {"bits", "indexed", "gradient", "solid"}
 CONSTRAINT DepthBound
 VIEW MCView
